@@ -29,13 +29,13 @@ def make(cfg, sched=None, keep_log=False):
     onlcr = bool(attrs[1] & _termios.OPOST) and bool(attrs[1] & _termios.ONLCR)
     if "onlcr" in cfg:
         onlcr = cfg["onlcr"]
-    delay = cfg.get("reply_delay", 0.0)
+    s.reply_delay = cfg.get("reply_delay", 0.0)      # (a check may change it between operations)
     enc = cfg.get("encoding", "utf-8")
 
     def reply(text):
         data = text.encode(enc if enc != "ascii" else "latin-1", "replace")
-        if delay:
-            s.world.after(delay, "arrive", data.hex())
+        if s.reply_delay:
+            s.world.after(s.reply_delay, "arrive", data.hex())
         else:
             s.world.log.add("reply", text)
             s.kernel.arrive(s.fd, data)
